@@ -557,6 +557,36 @@ func c10(c *an.Ctx) {
 				}
 			}
 		})
+		// or: rawResults := make([]interface{}, len(results)); rawResults[i] = results[i] on every iteration
+		an.Instrs(fn, func(i ssa.Instruction) {
+			st, ok := i.(*ssa.Store)
+			if !ok {
+				return
+			}
+			ia, ok := st.Addr.(*ssa.IndexAddr)
+			if !ok || !an.IsRangeIndex(ia.Index) || ia.X.Type().String() != "[]interface{}" {
+				return
+			}
+			ld, ok := an.StripConv(st.Val).(*ssa.UnOp)
+			if !ok {
+				return
+			}
+			src, ok := ld.X.(*ssa.IndexAddr)
+			if !ok || src.Index != ia.Index || !strings.HasPrefix(src.X.Type().String(), "[][]interface") {
+				return
+			}
+			ms, ok := ia.X.(*ssa.MakeSlice)
+			if !ok || (an.Expr(ms.Len) != "len("+fn.Params[1].Name()+")" && an.Expr(ms.Len) != "len("+an.Expr(src.X)+")") {
+				return
+			}
+			if S := an.LoopSliceOf(ia.Index); S == nil || (S != src.X && S != ia.X && an.Expr(S) != fn.Params[1].Name()) {
+				return
+			}
+			if h := an.LoopHeaderOf(i); h != nil && everyIteration(fn, h.Succs[0], i.Block(), h) {
+				okOut = true
+				o.Site(i)
+			}
+		})
 		if !okOut {
 			o.Fail(p.Pos(fn.Pos()), "the batch function does not emit exactly one result per item in order")
 		}
